@@ -413,15 +413,20 @@ Record gallow := GA { ga_var : string; ga_kind : string; ga_detail : string;
                       ga_need_var : string; ga_need_kind : string; ga_need_detail : string }.
 
 Definition allow_matches (a : gallow) (w : gwrite) : bool :=
-  String.eqb (ga_var a) (gw_var w) && String.eqb (ga_kind a) (gw_kind w) &&
-  (String.eqb (ga_detail a) "*" || String.eqb (ga_detail a) (gw_detail w)).
+  if String.eqb (ga_var a) (gw_var w) then
+    String.eqb (ga_kind a) (gw_kind w) &&
+    (String.eqb (ga_detail a) "*" || String.eqb (ga_detail a) (gw_detail w))
+  else false.
+(* `if` rather than && / ||: vm_compute is call-by-value, the operands of andb /
+   orb are both evaluated, and need_ok scans the whole site list *)
 Definition need_ok (all : list gwrite) (a : gallow) (w : gwrite) : bool :=
-  String.eqb (ga_need_var a) "" ||
-  existsb (fun o => String.eqb (gw_file o) (gw_file w) && String.eqb (gw_func o) (gw_func w) &&
-                    String.eqb (gw_var o) (ga_need_var a) && String.eqb (gw_kind o) (ga_need_kind a) &&
-                    String.eqb (gw_detail o) (ga_need_detail a)) all.
+  if String.eqb (ga_need_var a) "" then true else
+  existsb (fun o => if String.eqb (gw_var o) (ga_need_var a) then
+                      String.eqb (gw_file o) (gw_file w) && String.eqb (gw_func o) (gw_func w) &&
+                      String.eqb (gw_kind o) (ga_need_kind a) && String.eqb (gw_detail o) (ga_need_detail a)
+                    else false) all.
 Definition is_allowed (allowed : list gallow) (all : list gwrite) (w : gwrite) : bool :=
-  existsb (fun a => allow_matches a w && need_ok all a w) allowed.
+  existsb (fun a => if allow_matches a w then need_ok all a w else false) allowed.
 Definition not_allowed (allowed : list gallow) (ws : list gwrite) : list gwrite :=
   filter (fun w => negb (is_allowed allowed ws w)) ws.
 
@@ -449,9 +454,10 @@ Record twrite := TW { tw_file : string; tw_line : N; tw_type : string; tw_op : s
                       tw_func : string; tw_via : string }.
 Record tallow := TA { ta_type : string; ta_op : string; ta_func : string; ta_prefix : bool }.
 Definition tallow_matches (a : tallow) (w : twrite) : bool :=
-  String.eqb (ta_type a) (tw_type w) &&
-  (String.eqb (ta_op a) "*" || String.eqb (ta_op a) (tw_op w)) &&
-  (if ta_prefix a then String.prefix (ta_func a) (tw_func w) else String.eqb (ta_func a) (tw_func w)).
+  if String.eqb (ta_type a) (tw_type w) then
+    (String.eqb (ta_op a) "*" || String.eqb (ta_op a) (tw_op w)) &&
+    (if ta_prefix a then String.prefix (ta_func a) (tw_func w) else String.eqb (ta_func a) (tw_func w))
+  else false.
 Definition tnot_allowed (allowed : list tallow) (ws : list twrite) : list twrite :=
   filter (fun w => negb (existsb (fun a => tallow_matches a w) allowed)) ws.
 
@@ -462,7 +468,7 @@ Definition tnot_allowed (allowed : list tallow) (ws : list twrite) : list twrite
 Record mrange := MR { mr_file : string; mr_line : N; mr_func : string; mr_type : string; mr_shape : string }.
 Record mallow := MA { ma_func : string; ma_type : string; ma_shape : string }.
 Definition mallow_matches (a : mallow) (r : mrange) : bool :=
-  String.eqb (ma_func a) (mr_func r) && String.eqb (ma_type a) (mr_type r) && String.eqb (ma_shape a) (mr_shape r).
+  if String.eqb (ma_func a) (mr_func r) then String.eqb (ma_type a) (mr_type r) && String.eqb (ma_shape a) (mr_shape r) else false.
 Definition mnot_allowed (allowed : list mallow) (rs : list mrange) : list mrange :=
   filter (fun r => negb (existsb (fun a => mallow_matches a r) allowed)) rs.
 
